@@ -6,6 +6,8 @@ import os, sys, subprocess, tempfile, shutil, json, glob
 from concurrent.futures import ThreadPoolExecutor
 sys.path.insert(0, '/verif/selftest')
 import corpus
+import refmut
+import re
 pid = sys.argv[1]
 ENV = dict(os.environ, GOFLAGS='-mod=mod', GOPROXY='off', GOSUMDB='off', GOTOOLCHAIN='local')
 ENV.pop('GOWORK', None)
@@ -80,6 +82,27 @@ def run_refactoring(rd):
 
 for rd in sorted(glob.glob('/verif/refactorings/*')):
     jobs.append((run_refactoring, rd))
+
+def run_refmut(item):
+    """A refactoring followed by one breaking edit: the check must still fire (a rule must not go blind on refactored code)."""
+    name, ref, fn, rx, repl = item
+    d = scratch()
+    try:
+        a = subprocess.run(['patch', '-p1', '-s', '-i', f'/verif/refactorings/{ref}/patch.diff'], cwd=d, capture_output=True, text=True)
+        if a.returncode != 0:
+            return 'refmut:' + name, 'SKIPPED', 'refactoring no longer applies'
+        p = os.path.join(d, fn)
+        s = open(p).read()
+        if len(re.findall(rx, s)) != 1:
+            return 'refmut:' + name, 'SKIPPED', 'edit no longer applies to the refactored ' + fn
+        open(p, 'w').write(re.sub(rx, lambda m: repl, s, count=1))
+        st, info = check(d, '')
+        return 'refmut:' + name, st, info
+    finally:
+        shutil.rmtree(d, ignore_errors=True)
+
+for it in refmut.R.get(pid, []):
+    jobs.append((run_refmut, it))
 res = []
 with ThreadPoolExecutor(max_workers=10) as ex:
     for r in ex.map(lambda j: j[0](j[1]), jobs):
